@@ -11,6 +11,8 @@ def dispatchWrapF (line : String) : String :=
   | "sem" :: args => handleSem args
   | "gtargets" :: args => handleGtargets args
   | "implied" :: args => handleImplied args
+  | "ifguards" :: args => handleIfGuards args
+  | "ranks" :: args => handleRanks args
   | _ => "bad-op"
 
 partial def loopWrapF (h : IO.FS.Stream) (out : IO.FS.Stream) : IO Unit := do
